@@ -1,0 +1,80 @@
+//go:build verif
+
+// Contracts for package streampool, checked by /verif (govc). Comment-only.
+package streampool
+
+// ---------------------------------------------------------------------------------------------
+// C19: the sending side never waits on a peer.  The caller-facing operations reach the per-stream
+// queue and the dial pool only through their non-blocking entry points (TryAdd); a message that was
+// not accepted by the bounded queue is taken out of the statistics again; a broadcast over several tags
+// remembers the streams it already targeted (the distinctness of the target list itself is not proved); ending a stream removes its record.  Queue internals (cheggaaa/mb) and the
+// loops that drain the queues are out of reach (goroutines).
+//@ ghost blockingCalls Int stable
+//@ ghost statNet Int stable
+//@ ghost queued Int stable
+//@ func (*github.com/cheggaaa/mb/v3.MB[T]).Add
+//@   sets blockingCalls = blockingCalls + 1
+//@ func (*github.com/cheggaaa/mb/v3.MB[T]).TryAdd
+//@   modifies nothing
+//@   sets queued = queued + ite(result == nil, 1, 0)
+//@ func (*go.uber.org/zap.Logger).Fatal
+//@   modifies nothing
+//@   ensures false
+//@ package github.com/anyproto/any-sync/net/streampool
+//@ func (*streamStat).AddMessage
+//@   trusted
+//@   modifies nothing
+//@   sets statNet = statNet + 1
+//@ func (*streamStat).RemoveMessage
+//@   trusted
+//@   modifies nothing
+//@   sets statNet = statNet - 1
+//@ func iface streampool.peerMessage.Copy
+//@   modifies nothing
+//@ func iface streampool.peerMessage.SetPeerId
+//@   modifies nothing
+
+// one non-blocking enqueue attempt; statistics count exactly the accepted messages
+//@ func (*stream).write
+//@   requires sr != nil
+//@   assumes sr.queue != nil
+//@   modifies nothing
+//@   ensures [never_blocks] blockingCalls == old(blockingCalls)
+//@   ensures [one_attempt] queued <= old(queued) + 1 && (err == nil <==> queued == old(queued) + 1)
+//@   ensures [stats_track_accepted] statNet - old(statNet) == queued - old(queued)
+
+//@ func (*ExecPool).TryAdd
+//@   requires ss != nil
+//@   assumes ss.batch != nil
+//@   modifies nothing
+//@   ensures [never_blocks] blockingCalls == old(blockingCalls)
+//@ func (*streamPool).Send
+//@   requires s != nil
+//@   assumes s.dial != nil
+//@   ensures [never_blocks] blockingCalls == old(blockingCalls)
+
+// broadcast: with more than one tag the ids already targeted are remembered, so every stream is
+// targeted at most once; the writes happen outside the pool lock and never block
+//@ func (*streamPool).Broadcast
+//@   requires s != nil
+//@   assumes forall k int :: (k in s.streams) ==> s.streams[k] != nil && s.streams[k].queue != nil
+//@   ensures [never_blocks] blockingCalls == old(blockingCalls)
+//@   loop 0:
+//@     invariant [dedup_with_several_tags] len(tags) > 1 ==> seen != nil
+//@   loop 1:
+//@     invariant [dedup_with_several_tags] len(tags) > 1 ==> seen != nil
+//@   loop 2:
+//@     invariant blockingCalls == old(blockingCalls)
+
+// a stream that ended leaves no record behind
+//@ func removeStream
+//@   trusted
+//@   modifies kinds map:map[string][]uint32 uint32
+// (the close hook is a callback of the owner of the pool; it is assumed not to write the pool's maps)
+//@ func field streamPool.closeHook
+//@   modifies nothing
+//@ func (*streamPool).removeStream
+//@   requires s != nil
+//@   ensures [record_removed] !(streamId in s.streams)
+//@   loop 0:
+//@     invariant -1 <= rangeindex && rangeindex < len(st.tags)
